@@ -1,6 +1,17 @@
 """C20 — numbered databases are isolated and selection is per connection.
-Theorems: HashSel.select_accepts_exactly, selection_is_per_connection, isolation; tie: serve engine (several connections, SELECT-heavy)."""
-from .. import core, servesuite
+Theorems: Exec.select_accepts_exactly, selection_is_per_connection, isolation (Props/C20.lean); tie: serve engine (several connections, SELECT-heavy).
+Configuration layer (where the database count comes from; Props/C20Config.lean about Config/Parse.lean): Config.parse_databases_spec (after a successful Parse
+from Setup's defaults Databases is the value of the LAST `databases` directive, else 16, and >= 1), Config.cluster_single_database / cluster_select_iff (every ok
+outcome of ParseConfigJson has Databases = 1, RaftAddr given or not: in cluster mode SELECT i is accepted iff i = 0), Config.parse_total (outcomes and their
+reasons), Config.parse_append (line compositionality), comment / field facts.  Tie: harness engine `config` runs the REAL (*Config).Parse and ParseConfigJson on a
+Config holding Setup's literal (read from config/config.go by go/ast, line CD) in a worker process (log.Fatal = exit status 1 is observed, not guessed); the
+Lean driver (Driver/Config.lean) recomputes every outcome and every resulting field with Config.parse / Config.startup.  unicode.ToLower above ASCII and the
+IPv6 grammar of net.ParseIP are shipped by the harness as oracle facts; the effect of json.Unmarshal is taken from an echo (a separate Unmarshal of the same
+bytes), and for right-typed documents additionally predicted by the generator (keys in any letter case) and compared."""
+import collections
+import random
+
+from .. import core, servesuite, configgen
 
 
 def run(R, ctx):
@@ -17,7 +28,94 @@ def run(R, ctx):
                                "First-select races: 4-8 connections select the same database for the first time at the same moment (one step per index 1-15), each writes its own key; a late connection finds all of them there.",
                                pubsub=False, damage=True, reconnect=True, parallel_select=8, first_select=8)
     R.rule = rule + " || " + R.rule
+    config_suite(R)
     cluster_select(R)
+
+
+CFG_FIELDS = dict(NodeID="node", PeerAddrs="peers", RaftAddr="raft", PeerIDs="ids", KVPort="kv", JoinCluster="join", IsCluster="cluster", Databases="db", Host="host", Port="port",
+                  ShardNum="shard", LogDir="logdir", LogLevel="loglevel", ChanBufferSize="chan", ConfFile="conf", ClusterConfigPath="ccp")
+
+
+def _echo_disagrees(obs_line, pred):
+    """right-typed cluster JSON: the generator's own prediction of what json.Unmarshal decodes, against the echo"""
+    toks = obs_line.split(" => ", 1)[1].split()
+    echo = next((t[5:] for t in toks if t.startswith("echo=")), "-")
+    uerr = next((t[5:] for t in toks if t.startswith("uerr=")), "0")
+    if echo == "-":
+        return None
+    if uerr != "0":
+        return "json.Unmarshal reported an error for a right-typed document"
+    kv = dict(e.split("=", 1) for e in echo.split(";"))
+    for k, v in pred.items():
+        got = kv.get(CFG_FIELDS[k])
+        want = ("1" if v else "0") if isinstance(v, bool) else str(v) if isinstance(v, int) else v.encode("utf-8").hex()
+        if got != want:
+            return "field %s: decoded %s, predicted %s" % (k, got, want)
+    return None
+
+
+def config_suite(R):
+    """the configuration layer: the real config.Parse / ParseConfigJson against Config.parse / Config.startup (see the module docstring)"""
+    binary, err = core.build_harness()
+    R.oblige("harness builds against the repository working tree (-tags verif)", "build", binary is not None, err or "")
+    if binary is None:
+        R.violation("harness-build", dict(kind="tie-broken", summary="harness does not build: " + (err or "")[-800:]), found_input=False)
+        return
+    rng = random.Random(R.seed * 7919 + 20)
+    n = 2000 if R.tier == "quick" else 40000
+    kinds = collections.Counter()
+    lines, preds = configgen.gen_lines(rng, n, kinds)
+    lines = list(core.corpus("config")) + lines
+    obs, crashes, se = core.run_harness_resilient(binary, "config", lines, args=[core.REPO], timeout=1800)
+    d = core.run_driver(obs)
+    core.negative_control(R, obs, "config", skip=lambda l: " => " not in l)
+    pos = int(d["summary"].get("positive", 0))
+    outcomes = collections.Counter()
+    for l in obs:
+        last = l.split()[-1]
+        outcomes[l.split()[0] + " " + (":".join(last.split(":")[:2]) + (":" + last.split(":")[2][:34] if last.count(":") >= 2 else "") if not last.startswith("ok:") and ":" in last else "ok" if last.startswith("ok:") else "value")] += 1
+    echo_bad = []
+    by_input = {l.split(" => ")[0]: l for l in obs if l.startswith("CJ ")}
+    checked = 0
+    for inp, pred in preds.items():
+        o = by_input.get(inp)
+        if o is None:
+            continue
+        why = _echo_disagrees(o, pred)
+        checked += why is None and "echo=-" not in o
+        if why:
+            echo_bad.append((inp, why))
+    distinct = len(set(l.split(" => ")[0] for l in obs))
+    R.add_cases(len(obs), min(pos, distinct), samples=[l[:300] for l in obs[8:10]] + [l[:300] for l in obs[-2:]])
+    R.extra.setdefault("input_distribution", {})["config"] = dict(lines=len(obs), generated=dict(kinds), outcomes=dict(outcomes), distinct_lines=distinct,
+                                                                 json_documents_predicted=checked, harness_crashes=crashes)
+    ok = not d["mismatches"] and not d["unknown"] and crashes == 0 and len(obs) == len(lines)
+    R.oblige("correspondence config: outcome (ok / error text / panic / fatal exit) and every resulting field of the real (*Config).Parse and ParseConfigJson = "
+             "Config.parse / Config.startup; Setup's literal = Config.defaults; len(NewManager.DBs) = Config.newManager", "correspondence", ok,
+             "%d mismatches, %d unknown, %d crashes, %d of %d lines answered%s" % (len(d["mismatches"]), len(d["unknown"]), crashes, len(obs), len(lines), (" | " + se[-300:]) if crashes else ""))
+    R.oblige("encoding/json decodes right-typed cluster documents (keys in any letter case, unknown keys) as the generator predicts: the echo the model takes as "
+             "json.Unmarshal's effect is not only the implementation's word", "correspondence", not echo_bad and (checked > 0 or not preds),
+             "%d documents compared%s" % (checked, "; " + "; ".join(w for _, w in echo_bad[:2]) if echo_bad else ""))
+    R.suites.append(dict(name="config", lines=len(obs), mismatches=len(d["mismatches"]), crashes=crashes, driver_s=round(d["seconds"], 1)))
+    R.rule += (" || config: mostly-valid configuration files (every directive, letter-case variants incl. U+0130/U+212A, comments, '#' not in column 0, blank lines, tabs and Unicode "
+               "white space, CRLF, missing final newline, repeated directives, numbers with sign / leading zeros / overflow / junk, IPv4 corner spellings, IPv6) and a malformed "
+               "stream; cluster JSON documents (right-typed, wrong-typed, damaged syntax, keys in any letter case, NodeID beyond the peer list, RaftAddr given or not, a "
+               "Databases member) after a configuration file")
+    seen = 0
+    for mm in (d["mismatches"] + d["unknown"])[:3]:
+        seen += 1
+        try:
+            line = obs[int(mm.split()[1]) - 1].split(" => ")[0]
+        except Exception:
+            line = ""
+        readable = " | ".join(repr(core.unhx(t))[2:-1] for t in line.split()[1:] if set(t) <= set("0123456789abcdef-"))
+        R.violation("config-%d" % seen, dict(
+            kind="impl-violates-spec", engine="config", args=[core.REPO], summary=mm[:600], lines=[line] if line else [], program=[line.split()[0] + " " + readable] if line else [],
+            explanation="what the real config package makes of this input (outcome, or a field of the resulting Config - Databases among them) differs from Config.parse / "
+                        "Config.startup, about which Props/C20Config.lean proves where the database count comes from (last `databases` directive, else 16, never <= 0; always 1 in "
+                        "cluster mode): either the configuration layer changed its meaning, or the model no longer describes it"))
+    for inp, why in echo_bad[:1]:
+        R.violation("config-json-echo", dict(kind="tie-broken", engine="config", args=[core.REPO], lines=[inp], summary="cluster JSON: " + why), found_input=True)
 
 
 def cluster_select(R):
@@ -57,4 +155,6 @@ def replay(R, payload):
     if payload.get("engine") == "cluster":
         from .. import clustersuite
         return clustersuite.replay_cluster(R, payload)
+    if payload.get("engine") == "config":
+        payload = dict(payload, args=[core.REPO])      # the engine reads Setup's literal from the tree under test
     return core.generic_replay(R, payload)
